@@ -103,7 +103,7 @@ def fill_voice(rng, length, opts):
 
 def gen_score(rng, profile="full", size="small"):
     """profile: full | midi | match | unfold | kernmei | plain"""
-    nparts = 1 if profile in ("match", "unfold") else rng.choice((1, 1, 2, 2, 3))
+    nparts = 1 if profile in ("match", "unfold", "simple") else rng.choice((1, 1, 2, 2, 3))
     nmeas = rng.choice((1, 2, 3, 4, 6)) if size == "small" else rng.choice((4, 6, 8))
     if profile == "unfold":
         nmeas = rng.choice((3, 4, 5, 6, 8))
@@ -111,7 +111,7 @@ def gen_score(rng, profile="full", size="small"):
     ts = wchoice(rng, TIMESIGS, TIMESIGS_W)
     plan = []  # (length in quarters, (beats, beat_type) or None if unchanged)
     pickup = None
-    if profile not in ("unfold",) and rng.random() < 0.3 and not (profile == "match" and nmeas < 2):
+    if profile not in ("unfold", "mei", "simple") and rng.random() < 0.3 and not (profile == "match" and nmeas < 2):
         full = F(ts[0] * 4, ts[1])
         opts = [x for x in (F(1), F(1, 2), F(2), F(3, 2), F(1, 4)) if x < full]
         if opts:
@@ -121,7 +121,7 @@ def gen_score(rng, profile="full", size="small"):
         change = None
         if m == 0:
             change = cur
-        elif rng.random() < 0.15 and profile not in ("unfold",):
+        elif rng.random() < 0.15 and profile not in ("unfold", "mei", "simple"):
             new_ts = wchoice(rng, TIMESIGS, TIMESIGS_W)
             if new_ts != cur:  # a repeated identical signature is not a change
                 cur = new_ts
@@ -154,15 +154,16 @@ def tmap_ok(tmap, off):
 
 
 def gen_part(rng, pid, plan, has_pickup, profile):
-    one_div = profile in ("match", "kernmei")
-    nstaves = 1 if profile in ("match",) and rng.random() < 0.6 else rng.choice((1, 1, 2))
+    one_div = profile in ("match", "kernmei", "mei", "simple")
+    simple = profile == "simple"
+    nstaves = 1 if (profile in ("match",) and rng.random() < 0.6) or simple else rng.choice((1, 1, 2))
     voices = []  # (voice number, staff)
     v = 1
     for s in range(1, nstaves + 1):
-        for _ in range(rng.choice((1, 1, 2))):
+        for _ in range(1 if simple else rng.choice((1, 1, 2))):
             voices.append((v, s))
             v += 1
-    tup_p = 0.0 if profile in ("kernmei",) and rng.random() < 0.5 else rng.choice((0.0, 0.15, 0.3))
+    tup_p = 0.0 if (profile in ("kernmei", "mei") and rng.random() < 0.5) or simple else rng.choice((0.0, 0.15, 0.3))
     gaps = rng.choice((0, 0, 0, 0.1)) if profile in ("full", "plain") else 0
     unequal = rng.choice((0, 0, 0.5)) if profile in ("full", "plain", "midi") else 0
     min_dur = rng.choice((F(1, 8), F(1, 4), F(1, 4), F(1, 2)))
@@ -289,7 +290,7 @@ def gen_part(rng, pid, plan, has_pickup, profile):
                 if gaps and g is None and rng.random() < gaps:
                     continue  # a gap: nothing at all in this voice here
                 chord = 1
-                if kind == "note" and rng.random() < 0.2:
+                if kind == "note" and rng.random() < 0.2 and not simple:
                     chord = rng.choice((2, 2, 3))
                 base_oct = 4 if st == 1 else 3
                 used = set()
@@ -305,7 +306,7 @@ def gen_part(rng, pid, plan, has_pickup, profile):
                     if kind == "note":
                         for _ in range(10):
                             step = rng.choice(STEPS)
-                            alter = wchoice(rng, [None, 1, -1, 2, -2], [12, 3, 3, 0.3, 0.3])
+                            alter = wchoice(rng, [None, 1, -1, 2, -2], [12, 3, 3, 0 if simple else 0.3, 0 if simple else 0.3])
                             octave = base_oct + rng.choice((0, 0, 1, -1))
                             mp = midi_pitch(step, alter, octave)
                             if mp not in used:
@@ -359,6 +360,8 @@ def gen_part(rng, pid, plan, has_pickup, profile):
 
 
 def decorate(rng, part, profile):
+    if profile == "simple":
+        return
     notes = part["notes"]
     by_voice = {}
     for n in notes:
@@ -401,7 +404,7 @@ def decorate(rng, part, profile):
                 x["tie_prev"] = None
                 break
     # --- grace notes
-    if profile in ("full", "midi", "match", "kernmei", "plain", "unfold") and rng.random() < 0.35:
+    if profile in ("full", "midi", "match", "kernmei", "mei", "plain", "unfold") and rng.random() < 0.35:
         mains = [n for n in notes if n["kind"] == "note" and not n.get("tie_prev")]
         rng.shuffle(mains)
         k = 0
